@@ -21,9 +21,23 @@ UNITS = {
     'bytesio': {'rlimit': 50, 'timeout': 120},
     'builder': {'rlimit': 50, 'timeout': 240},
     'encode': {'rlimit': 100, 'timeout': 240},
+    'getkey': {'rlimit': 50, 'timeout': 120},
 }
 
 PROPS = {
+    'C16': {
+        'units': ['getkey'],
+        'kani': [],
+        'level_text': 'Proof: FstRef::get_key_into (real body, one R11 hoist) and the Fst::get_key / get_key_into wrappers are verified '
+                      'against lookup over the decoded graph: true with exactly the key of value v appended to the caller\'s buffer, false '
+                      'only if no key has value v - including a final root with a non-zero output (the empty key).',
+        'level_note': 'Assumed: the structural shape `canon` of the graph (per node: inputs unique, outputs strictly increasing and dominating '
+                      'everything below the previous transition, non-root final outputs 0) that the builder gives a map whose values increase '
+                      'with the keys - argued, not carried through the builder unit. Node accessors and the hoisted take_while(..).last() '
+                      'expression are assumed contracts (unit decode / Kani K-scan).',
+        'explanation': '',
+        'assumptions': ['canon(graph, root) for maps with strictly increasing values: assumed precondition (DESIGN.md C16)'],
+    },
     'C06': {
         'units': ['builder'],
         'kani': [],
